@@ -161,7 +161,7 @@ def lincomb_cases(add, rng, kind, n, m, terms, i=0):
     for (a, b) in terms:
         args += [to_limbs(a, n), to_limbs(b, n)]
     if kind == 'monty':
-        for rt in ('monty', 'monty_trait'):
+        for rt in ('monty', 'monty_trait', 'monty_selected1', 'monty_selected0'):
             add(Case('lincomb.fixed.' + rt, args, mop='lincomb.fixed', dbg=True))
     elif kind == 'const':
         add(Case('lincomb.fixed.const', args, mop='lincomb.fixed', dbg=True))
